@@ -38,7 +38,7 @@ var c13Mutants = []string{"height+1", "height+5", "height-1", "prev-earlier", "p
 
 func genC13(t *rapid.T) c13Case {
 	genOp := rapid.Custom(func(t *rapid.T) c13Op {
-		op := rapid.SampledFrom([]string{"valid", "valid", "valid", "valid", "mutant", "mutant", "resubmit", "header", "badheader", "restart"}).Draw(t, "op")
+		op := rapid.SampledFrom([]string{"valid", "valid", "valid", "valid", "mutant", "mutant", "resubmit", "header", "badheader", "restart", "crash"}).Draw(t, "op")
 		o := c13Op{Op: op, Via: rapid.SampledFrom([]string{"submit", "addblock"}).Draw(t, "via")}
 		o.NTx = rapid.IntRange(0, 3).Draw(t, "ntx")
 		o.Arg = rapid.IntRange(0, 1000).Draw(t, "arg")
@@ -172,7 +172,7 @@ func runC13(ctx *ev.Ctx, c c13Case) {
 	}
 	defer ch.Close()
 	w := &c13World{ctx: ctx, c: ch, model: []*types.Block{ch.Genesis}}
-	rejectedAfter2, resub := false, false
+	rejectedAfter2, resub, crashed := false, false, false
 	for i, op := range c.Ops {
 		h0, hash0, dump0 := w.snapshot()
 		tip := w.model[len(w.model)-1]
@@ -330,6 +330,37 @@ func runC13(ctx *ev.Ctx, c c13Case) {
 			if d := dumpsEqual(dump0, dump1); d != "" {
 				ctx.Failf("op %d: restart changed the state store: %s", i, d)
 			}
+		case "crash":
+			// the process stops at a persistence point while a valid successor is being committed, and restarts: whichever
+			// of the two admissible outcomes recovery picks (block held or not), the ledger must afterwards accept exactly
+			// the valid successors of what it holds - the following ops check that
+			if w.pending != nil {
+				continue
+			}
+			points := []string{"submit-before-commit", "submit-after-block-commit", "submit-after-event-commit", "submit-after-state-commit"}
+			point := points[op.Arg%len(points)]
+			b := lworld.Roundtrip(ch.Build(w.txs(op.NTx), lworld.BlockOpt{}))
+			held, err := ch.CrashAt(b, point)
+			if err != nil {
+				ctx.Failf("op %d: crash at %s / restart failed: %v", i, point, err)
+			}
+			ctx.Label("crash:" + point)
+			crashed = true
+			if held {
+				ch.NoteCommitted(b)
+				w.model = append(w.model, b)
+			} else {
+				for _, tx := range b.Transactions {
+					w.bogus = append(w.bogus, tx.Hash())
+				}
+				h1, hash1, dump1 := w.snapshot()
+				if h1 != h0 || hash1 != hash0 {
+					ctx.Failf("op %d: crash at %s: block not held after recovery, but the tip changed: %d -> %d", i, point, h0, h1)
+				}
+				if d := dumpsEqual(dump0, dump1); d != "" {
+					ctx.Failf("op %d: crash at %s: block not held after recovery, but the state store changed: %s", i, point, d)
+				}
+			}
 		case "resubmit":
 			if len(w.model) < 2 {
 				continue
@@ -349,7 +380,7 @@ func runC13(ctx *ev.Ctx, c c13Case) {
 		}
 		w.checkLookups()
 	}
-	if rejectedAfter2 && resub {
+	if (rejectedAfter2 && resub) || crashed {
 		ctx.NonTrivial()
 	}
 }
@@ -368,7 +399,8 @@ func flat(d [][2][]byte) []byte {
 func TestC13(t *testing.T) {
 	ev.Drive(t, "C13",
 		"cases: histories of 1..14 (thorough 30) ledger operations on a real LedgerStore (valid successor via ExecuteBlock+SubmitBlock or AddBlock, "+
-			"11 kinds of mutated successors, re-submission of committed heights, valid and mutated headers), lookups and a full state-store dump compared with a list model after every step. "+
-			"non-trivial: at least one rejected mutant after >=2 commits and at least one re-submission; distinct by JSON of the history",
+			"11 kinds of mutated successors, re-submission of committed heights, valid and mutated headers, clean restarts, and process stops at each of the four persistence points of a commit followed by recovery), "+
+			"lookups and a full state-store dump compared with a list model after every step: after any history, recovery included, exactly the valid successors of the held tip are accepted. "+
+			"non-trivial: at least one rejected mutant after >=2 commits and at least one re-submission, or a crash with recovery; distinct by JSON of the history",
 		genC13, runC13)
 }
